@@ -98,6 +98,39 @@ pub fn run(line: &str) -> String {
     let (kind, Ok(n), Ok(seed)) = (f[0], f[1].parse::<usize>(), f[2].parse::<u64>()) else {
         return "bad-case".into();
     };
+    if kind == "nssel" {
+        // namespace syntax the parser accepts: `[|a]` is the attribute without a namespace (= `[a]`), `|div` is an
+        // element without a namespace (never an HTML / SVG / MathML element: matches nothing)
+        let doc = "<div id=a class=x><p ID=b><svg id=c><g class=x></g></svg><span></span></p></div>";
+        let count = |sel: &str| -> Result<usize, String> {
+            let n = std::cell::Cell::new(0usize);
+            let r = lol_html::rewrite_str(
+                doc,
+                lol_html::RewriteStrSettings::new().append_element_content_handler(element!(sel, |_e| {
+                    n.set(n.get() + 1);
+                    Ok(())
+                })),
+            );
+            r.map(|_| n.get()).map_err(|e| e.to_string())
+        };
+        let mut out = String::new();
+        let mut oracle = String::new();
+        for (a, b) in [("[|id]", "[id]"), ("[|class=x]", "[class=x]"), ("div[|id]", "div[id]"), ("p > [|id]", "p > [id]")] {
+            let (ra, rb) = (count(a), count(b));
+            out.push_str(&format!(" {:?}", ra));
+            if ra != rb {
+                oracle.push_str(&format!(" ||ORACLE:C04:no-namespace-attribute `{a}` gives {ra:?}, `{b}` gives {rb:?}"));
+            }
+        }
+        for a in ["|div", "|g", "|*", "p |span"] {
+            let ra = count(a);
+            out.push_str(&format!(" {:?}", ra));
+            if ra.as_ref().is_ok_and(|k| *k != 0) {
+                oracle.push_str(&format!(" ||ORACLE:C04:no-namespace-type `{a}` matched {ra:?} elements"));
+            }
+        }
+        return format!("nssel{out}{oracle}");
+    }
     if kind == "deepsel" {
         // deeply nested / very long selector strings: a Selector or a SelectorError, never stack exhaustion
         let k = n.min(200_000);
